@@ -77,6 +77,7 @@ def run(ctx):
     beh_all = os.path.join(ctx.scratch, "liveness_beh.ndjson")
     seen = set()
     nexh = nsimb = nontrivial = 0
+    exh_keys = set()
     with open(beh_all, "w") as fo:
         for fn, tag in gens:
             with open(fn) as fi:
@@ -90,6 +91,9 @@ def run(ctx):
                     fo.write(line)
                     if tag == "exh":
                         nexh += 1
+                        mm = re.match(r'\[\{"cfg":(\{[^}]*\})', line)
+                        if mm:
+                            exh_keys.add(cfg_key(json.loads(mm.group(1))))
                     else:
                         nsimb += 1
                     if '"cached":true' in line and '"a":"Advance"' in line:
@@ -108,9 +112,11 @@ def run(ctx):
     summ = summ[0]
     shapes = {x["key"]: x["real"] for x in rows if x.get("kind") == "shape"}
     for key, c in summ["per"].items():
-        # (configurations that only occur in a handful of sampled behaviours may have met the other admissible shape only)
-        if c["Replayed"] == 0 and c["Skipped"] >= 50:
+        # (configurations that only occur in sampled behaviours may have met the other admissible shape only)
+        if c["Replayed"] == 0 and key in exh_keys:
             raise vlib.InfraError("configuration %s: no behaviour matched an admissible cache shape (real shape %s)" % (key, shapes.get(key)))
+    if not exh_keys or not exh_keys <= set(summ["per"]):
+        raise vlib.InfraError("configuration keys of the exhaustive behaviours were not recognised: %s" % sorted(exh_keys)[:5])
     mism = [x for x in rows if x.get("kind") == "mismatch"]
     # a configured capacity that the real object does not enforce: report it once per (cache, capacity pattern), with
     # the behaviours where Len() exceeds the capacity as witnesses; other divergences of the same configuration
@@ -145,7 +151,9 @@ def run(ctx):
                          "CachedLivenessTester counts it under 'fail' (stats comments: pass = non-live phantom)" % summ["uncachedLiveStat"])
     ctx.stage("B", behaviours=summ["behaviours"], steps=summ["steps"], mismatches=summ["mismatches"], skipped_other_admissible_shape=summ["skipped"],
               exhaustive_paths=nexh, simulated=nsimb, with_hit_and_advance=nontrivial, configurations=len(summ["per"]),
-              consequential_mismatches_folded=folded, real_shapes=shapes)
+              consequential_mismatches_folded=folded,
+              real_shapes={k: "live=%s/%s nonlive=%s/%s (%s)" % (v.get("lk"), v.get("lsize"), v.get("nk"), v.get("nsize"), v.get("tester"))
+                           for k, v in sorted(shapes.items())})
 
     # ---------------------------------------------------------------- C
     trp = os.path.join(ctx.scratch, "liveness_traces.ndjson")
